@@ -410,6 +410,22 @@ class VFS:
             self.snaps.append(self.snapshot())
             self.snap_at.append(-1)
 
+    @classmethod
+    def from_image(cls, dirs, files, snapshots=False):
+        """A file system as found after a crash: `files` {path: content}, all of it durable."""
+        fs = cls(snapshots=False)
+        fs.dirs = set(dirs) | {"/", ROOT}
+        for p in sorted(files):
+            inode = Inode(fs._nextino)
+            fs._nextino += 1
+            inode.durable = files[p]
+            fs.files[p] = inode
+        if snapshots:
+            fs.snapshots = True
+            fs.snaps.append(fs.snapshot())
+            fs.snap_at.append(-1)
+        return fs
+
     # ---- internals
     def _norm(self, path):
         if not isinstance(path, str):
@@ -646,9 +662,10 @@ class LogWorld:
     PREFIX = ROOT + "/log"
 
     def __init__(self, fs, rule, fields=None, share_init=None, tick=0.125, logger_kw=None,
-                 base="log", tag="x", share_name="mc.x", more_logs=()):
+                 base="log", tag="x", share_name="mc.x", more_logs=(), more_loggees=()):
         """more_logs: further logs in the same logger, (base, rule, fields) on the same share or
-        (base, rule, fields, share_name, share_init) on another share (created on demand)."""
+        (base, rule, fields, share_name, share_init) on another share (created on demand).
+        more_loggees: further loggees of the FIRST log, (tag, share_name, fields, share_init)."""
         from ioflo.base import housing, logging as iologging, globaling
         from ioflo.aid.odicting import odict
         housing.House.Clear()
@@ -671,9 +688,15 @@ class LogWorld:
             self.share.create(odict(share_init))
         self.log = iologging.Log(name=base, store=self.store, kind="text", rule=rule)
         self.log.addLoggee(tag=tag, loggee=share_name, fields=list(fields) if fields else None)
+        self.shares = {share_name: self.share}
+        for tag2, sname2, fields2, init2 in more_loggees:
+            if sname2 not in self.shares:
+                self.shares[sname2] = self.store.create(sname2)
+                if init2:
+                    self.shares[sname2].create(odict(init2))
+            self.log.addLoggee(tag=tag2, loggee=sname2, fields=list(fields2) if fields2 else None)
         self.logger.addLog(self.log)
         self.logs = [self.log]
-        self.shares = {share_name: self.share}
         for spec in more_logs:
             base2, rule2, fields2 = spec[:3]
             sname = spec[3] if len(spec) > 3 else share_name
